@@ -165,7 +165,10 @@ def check_ywd(R, tu, rule):
                                     if c1 == 53:
                                         # a week the following years do not have: whether a whole year `fits' depends on how the
                                         # adder clamps, so only the ranges of the components are decided here
-                                        if not (got[0] >= 0 and 0 <= got[1] <= 53 and 0 <= got[2] <= 6) and len(bad) < 5000:
+                                        # ... but with no whole year taken out, weeks and days are the plain distance
+                                        if (not (got[0] >= 0 and 0 <= got[1] <= 53 and 0 <= got[2] <= 6)
+                                                or (got[0] == 0 and 7 * got[1] + got[2] != (D2 - D1).days)
+                                                or (got[0] > 0 and _isowk(y1 + got[0]) == 53 and got != exp)) and len(bad) < 5000:
                                             bad.append((D1, D2, got, exp))
                                     elif got != exp and len(bad) < 5000:
                                         bad.append((D1, D2, got, exp))
